@@ -4,7 +4,8 @@
   zero-sized box of an empty text); the calls on the target are the calls of the original moved by `d`;
   `translate_mut` = `translate`.
   Models: EG.Model.TextLayout (`Transform for Text`), EG.Model.Font (`draw_string`),
-  EG.Model.CallTranslate. Helper lemmas: EG/Lemmas/TextLayoutTranslate.lean.
+  EG.Model.CallTranslate. Helper lemmas: EG/Lemmas/TextLayoutTranslate.lean, TextLayoutTranslateColor.lean
+  (every style, picture), EG/Lemmas/CallTranslate.lean (moved calls => shifted picture).
 
   -- [V] text: coordinates for which the text's bounding box leaves the `i32` range while exactly one of text / background colour is set (guard `Rect.InRange` of the box false: `Rectangle::points` of a glyph cell saturates; C08's topic): carried by correspondence + oracle only; proved: positions, returned position, box, calls on the binary target for every style, target calls for every style (box in range; no guard when both or neither colour is set), picture on both targets
   -- [V] text: `translate_mut` has the same effect as `translate` (mutation through `&mut self` is not modelled; `translate_mut_eq_translate` is definitional in the model): carried by correspondence + oracle only
